@@ -157,7 +157,9 @@ def run_property(prop, tier="quick", seed=0, unit_filter=None, nproc=None, extra
         else:
             notes.extend(res["notes"])
         if res["level"] != "proof":
-            bounded_units.append("%s: %s" % (uname, res["bound_note"]))
+            bnote = "%s: %s" % (uname, res["bound_note"])
+            if bnote not in bounded_units:
+                bounded_units.append(bnote)
         undecided.extend(res["undecided"])
         pu = per_unit.setdefault(uname, dict(obligations=0, discharged=0, cases=0, paths=0))
         pu["cases"] += 1
